@@ -99,6 +99,42 @@ package introspection
 //@   modifies *
 //@   safety none
 
+// C17, nothing missing: the element loops. One import per element, one ref per element, in order; an input object's
+// fields reach the document like an object's do; the two directive builders stay without a contract (callers use their computed
+// write set, which is what keeps the deprecation flags of the source data framed).
+//@ func JsonConverter.importFields
+//@   requires j != nil
+//@   ghost var g_n int = 0
+//@   at call JsonConverter.importField: assert {fields.are.imported.in.order} g_n == i && arg1 == fields[i]
+//@   at call JsonConverter.importField: ghost g_n = g_n + 1
+//@   ensures {one.ref.per.field} result1 == nil ==> len(result0) == len(fields) && g_n == len(fields)
+//@   modifies *
+//@   safety no-bounds
+//@   loop 0:
+//@     invariant len(refs) == len(fields) && fresh(refs) && g_n == i && i >= 0 && i <= len(refs)
+
+//@ func JsonConverter.importInputFields
+//@   requires j != nil
+//@   ghost var g_n int = 0
+//@   at call JsonConverter.importInputField: assert {input.fields.are.imported.in.order} g_n == i && arg1 == fields[i]
+//@   at call JsonConverter.importInputField: ghost g_n = g_n + 1
+//@   ensures {one.ref.per.input.field} result1 == nil ==> len(result0) == len(fields) && g_n == len(fields)
+//@   modifies *
+//@   safety no-bounds
+//@   loop 0:
+//@     invariant len(refs) == len(fields) && fresh(refs) && g_n == i && i >= 0 && i <= len(refs)
+
+//@ func JsonConverter.importInputObject
+//@   requires j != nil && fullType != nil
+//@   ghost var g_refs int = -1
+//@   ghost var g_passed int = -2
+//@   at call JsonConverter.importInputFields: assert {the.input.objects.fields.are.imported} arg1 == fullType.InputFields
+//@   at call JsonConverter.importInputFields: ghost g_refs = len(result0)
+//@   at call Document.ImportInputObjectTypeDefinition: ghost g_passed = len(arg3)
+//@   ensures {every.input.field.reaches.the.document} result == nil ==> g_passed == g_refs
+//@   modifies *
+//@   safety no-bounds
+
 // ----------------------------------------------------------------------------------------------
 // C17, generator half (schema -> introspection data). A Generator is reusable (NewGenerator / Generate(schema, data)):
 // what it reports for a schema depends on that schema only.
